@@ -785,6 +785,15 @@ func (fr *Frame) callModular(in ssa.Instruction, f *ssa.Function, c *Contract, a
 	for _, m := range c.Modifies {
 		env.havocLvalue(m, st)
 	}
+	if len(c.Modifies) > 0 {
+		// atomic words seen through opaque pointers (model cells "atomicword:*") are not named by
+		// modifies clauses: any callee that writes anything may have written them
+		for key, old := range st.Heap {
+			if strings.HasPrefix(key, "atomicword:") {
+				st.Heap[key] = B.Fresh("mod."+key, old.Sort)
+			}
+		}
+	}
 	if c.Allocates || true {
 		st.HeapTop = p.bumpHeapTop(st.HeapTop, "heaptop")
 	}
